@@ -110,8 +110,11 @@ def run(rep, tier):
     emit = idx.func('hexasm::CodeGen::emitProgramBin')
     toks = idx.enum('hexasm::Token')
     classes = []
-    c04.partition(idx, emit, toks['LDAC'], 3, c04.INT_MIN, -1, classes)
-    c04.partition(idx, emit, toks['LDAC'], 3, 0, c04.INT_MAX, classes)
+    try:
+        c04.partition(idx, emit, toks['LDAC'], 3, c04.INT_MIN, -1, classes)
+        c04.partition(idx, emit, toks['LDAC'], 3, 0, c04.INT_MAX, classes)
+    except AnalysisBroken as e:
+        rep.undecided('R8', 'LDAC', 'emitter not interpreted: %s' % e, pos(emit.node))     # the other rules still report
     for lo, hi, res, n in classes:
         r1 = [r for r in res if r[0] == 'R1'][0]
         rep.add('R8', 'LDAC:[%d,%d]' % (lo, hi), r1[1], pos(emit.node) + ' hexasm::numNibbles / emitProgramBin', r1[2], nontrivial=False)
@@ -164,3 +167,13 @@ def run(rep, tier):
             if d.get('kind') == 'VarDecl' and 'Lexer' in qt(d):
                 env['locals'][d['id']] = lex
     robust.rule_handlers(rep, 'R14', idx, 'hexasm', mainf, bind)
+    # R15: no undefined behaviour on the way from the literal to the instruction (import of C04-RA / RB)
+    from .. import report as _report
+    rep.rule('R15', 'reading a literal involves no undefined behaviour: the lexer value, Parser::parseInteger and parseDirective are defined for '
+             'every 32-bit operand in both spellings, including -2147483648 (import of C04-RA and C04-RB)', floor=40)
+    imp = _report.Import(rep, 'R15', 'C04')
+    for fn in (c04.rule_parse, c04.rule_parse_directive):
+        try:
+            fn(imp, idx)
+        except AnalysisBroken as e:
+            rep.undecided('R15', fn.__name__, 'not interpreted: %s' % e, 'hexasm.hpp hexasm::Parser')
